@@ -24,14 +24,14 @@ func init() {
 	register(&Check{ID: "C20", Level: "model_checking", Run: runC20, Replay: replayC20})
 }
 
-var c20KindNames = []string{"Id", "Dot", "Add3", "Call", "Clone", "RenderWithSharedFile", "Tag", "Line", "Case", "Block", "AddSpread", "QualSameName"}
+var c20KindNames = []string{"Id", "Dot", "Add3", "Call", "Clone", "RenderWithSharedFile", "Tag", "Line", "Case", "Block", "AddSpread", "QualSameName", "DoAppendAndCloneInside"}
 
 // Two alphabets (operation kinds on any pool member) with their pool sizes: the general one, and
 // one of clause-like tokens whose rendering depends on their neighbours (Line, Case, Block).
 // The third alphabet: items spread from ONE caller-owned list (with a nil in the middle) that every
 // such operation of the history reuses, and qualified identifiers whose paths differ per statement
 // but share the package name.
-var c20Alphabets = [][]int{{0, 1, 2, 3, 4, 5, 6}, {0, 1, 7, 8, 9, 4}, {0, 3, 10, 11, 4}}
+var c20Alphabets = [][]int{{0, 1, 2, 3, 4, 5, 6}, {0, 1, 7, 8, 9, 4}, {0, 3, 10, 11, 4, 12}}
 var c20Pools = []int{4, 3, 3}
 
 // the alphabet in force (searches run one after another)
@@ -217,6 +217,20 @@ func c20Build(hist []int) (w *c20World, ok bool) {
 			w.model = append(w.model, &c20Model{parent: si, snap: w.accept(si), snapFlat: w.flat(si)})
 		case 5:
 			c20WithFile(s, w.shared)
+		case 12:
+			// a token appended inside a Do callback, and a Clone of the callback's statement taken there
+			if len(w.stmts) >= c20Pool {
+				return w, false
+			}
+			t := c20Tok{0, fmt.Sprintf("t%d_%d", si, len(m.own))}
+			var c *jen.Statement
+			s.Do(func(x *jen.Statement) {
+				x.Id(t.name)
+				c = x.Clone()
+			})
+			m.own = append(m.own, t)
+			w.stmts = append(w.stmts, c)
+			w.model = append(w.model, &c20Model{parent: si, snap: w.accept(si), snapFlat: w.flat(si)})
 		case 10:
 			if w.spread == nil {
 				w.spread = []jen.Code{jen.Id("sa"), nil, jen.Id("sb"), jen.Id("sc")}
@@ -256,7 +270,8 @@ func (w *c20World) key() string {
 	var sb strings.Builder
 	sb.WriteString(imp.Key(w.shared))
 	for i, s := range w.stmts {
-		fmt.Fprintf(&sb, "%d:%d:%d:%s|", w.model[i].parent, len(*s), cap(*s), c20Render(s))
+		// (the reflection dump shows the nesting of the statement, which its rendering does not)
+		fmt.Fprintf(&sb, "%d:%d:%d:%s:%s|", w.model[i].parent, len(*s), cap(*s), c20Render(s), imp.Key(s))
 		// the oracle's own state belongs to the key: two histories that leave the same statements but
 		// different sets of acceptable renderings (what the parent looked like at clone time) have
 		// different futures as far as the invariant goes
@@ -271,7 +286,24 @@ func (w *c20World) key() string {
 }
 
 // c20Invariant returns "" or a description of the broken statement.
-func c20Invariant(w *c20World) string {
+func c20Invariant(w *c20World, hist []int) string {
+	// rendering is no operation on the statements: a history with RenderWithFile steps leaves every
+	// statement rendering like the same history without them
+	var plain []int
+	for _, op := range hist {
+		if c20Kind(op) != 5 {
+			plain = append(plain, op)
+		}
+	}
+	if len(plain) != len(hist) {
+		if twin, ok := c20Build(plain); ok && len(twin.stmts) == len(w.stmts) {
+			for i := range w.stmts {
+				if a, b := c20Render(w.stmts[i]), c20Render(twin.stmts[i]); a != b {
+					return fmt.Sprintf("s%d renders %q; after the same history without its RenderWithFile steps it renders %q", i, a, b)
+				}
+			}
+		}
+	}
 	for i, s := range w.stmts {
 		got := c20Render(s)
 		acc := w.accept(i)
@@ -311,7 +343,7 @@ func c20Invariant(w *c20World) string {
 			return fmt.Sprintf("s%d: GoString gives %q, RenderWithFile with a fresh File %q", i, gs, fresh)
 		}
 	}
-	if w.lastOp >= 0 && c20Kind(w.lastOp) == 4 {
+	if w.lastOp >= 0 && (c20Kind(w.lastOp) == 4 || c20Kind(w.lastOp) == 12) {
 		c := len(w.stmts) - 1
 		if a, b := c20Render(w.stmts[c]), c20Render(w.stmts[w.model[c].parent]); a != b {
 			return fmt.Sprintf("fresh clone s%d renders %q, its original s%d renders %q", c, a, w.model[c].parent, b)
@@ -329,9 +361,9 @@ func runC20(r *ev.Recorder) {
 		r.SetDeadline(5 * 60 * 1e9)
 	}
 	r.Rule = fmt.Sprintf("explicit-state BFS over the real Statement API: pool of <= %d statements (one original Id(r) plus clones, clones of clones included); operations on any pool member: "+
-		"Id (1 token), Dot (2), Add(x,y,z) (3), Call (1 group), Tag (1), Clone, RenderWithFile with one File shared by the whole history; a second alphabet of tokens whose rendering depends on their neighbours - Id, Dot, Line, Case, Block (a clause body directly after a Case in the same statement; as the first token of a clone of a statement ending in Case both renderings are accepted), Clone - over a pool of 3; a third alphabet - Id, Call, Clone, Add(list...) of one caller-owned list with a nil in its middle that every such operation reuses, and Qual with a path particular to the statement but a shared package name - over a pool of 3, with GoString compared to RenderWithFile(fresh File); two roots (Id(r) and an empty Null() original, the latter one level less deep); all histories of length <= %d, de-duplicated on (parent, len, cap, raw rendering, the model's set of acceptable parent renderings at clone time) of every statement - the oracle's own state is part of the key, since histories that leave equal statements but different acceptable sets have different futures. "+
+		"Id (1 token), Dot (2), Add(x,y,z) (3), Call (1 group), Tag (1), Clone, RenderWithFile with one File shared by the whole history; a second alphabet of tokens whose rendering depends on their neighbours - Id, Dot, Line, Case, Block (a clause body directly after a Case in the same statement; as the first token of a clone of a statement ending in Case both renderings are accepted), Clone - over a pool of 3; a third alphabet - Id, Call, Clone, Add(list...) of one caller-owned list with a nil in its middle that every such operation reuses, Qual with a path particular to the statement but a shared package name, and Do with a callback that appends a token and takes a Clone of the statement it was handed - over a pool of 3, with GoString compared to RenderWithFile(fresh File); two roots (Id(r) and an empty Null() original, the latter one level less deep); all histories of length <= %d, de-duplicated on (parent, len, cap, raw rendering, reflection dump of the statement's tree, the model's set of acceptable parent renderings at clone time) of every statement - the oracle's own state is part of the key, since histories that leave equal statements but different acceptable sets have different futures. "+
 		"Invariant in every state (list model whose token texts come from twins built on the real API without any Clone): an original renders like a twin built by the same appends; a clone renders its parent (as of clone time or as of now - the property leaves that open) followed by its own tokens as they render alone, or like a twin on which the parent's and its own appends were made directly; "+
-		"a fresh clone renders like its original; every statement rendered with the shared File equals its rendering with a fresh File. Plus chains of 2..1000 nested clones, and 1,820 nesting cases: originals of 1..13 items, two clones with tails of 0..3 items, one nested as a call argument inside the other at every position, rendered twice. Slice growth 1->2->4->8 makes cap > len reachable within 3 appends", c20Pool, depth)
+		"a fresh clone renders like its original; every statement rendered with the shared File equals its rendering with a fresh File; every statement renders like after the same history without its RenderWithFile steps. Plus chains of 2..1000 nested clones, and 1,820 nesting cases: originals of 1..13 items, two clones with tails of 0..3 items, one nested as a call argument inside the other at every position, rendered twice. Slice growth 1->2->4->8 makes cap > len reachable within 3 appends", c20Pool, depth)
 	r.Assume = []string{"both snapshot and live-view semantics of Clone are accepted (the property does not choose)", "histories longer than the depth bound are outside the bound"}
 
 	var states, transitions int64
@@ -372,7 +404,7 @@ func runC20(r *ev.Recorder) {
 					if len(hist) == 5 && r.WantSample() {
 						r.Sample(map[string]any{"null_root": nullRoot, "history": c20Hist(hist), "statements": w.render()})
 					}
-					if msg := c20Invariant(w); msg != "" {
+					if msg := c20Invariant(w, hist); msg != "" {
 						r.Violate(ev.Violation{Signature: "c20:" + c20KindNames[c20Kind(hist[len(hist)-1])], What: fmt.Sprintf("null root %v, after %v: %s", nullRoot, c20Hist(hist), msg),
 							Case: ev.JSON(c20Case{NullRoot: nullRoot, Alphabet: ai, Hist: hist}), Detail: msg})
 					}
@@ -547,6 +579,6 @@ func replayC20(raw json.RawMessage) (bool, string) {
 	if !ok {
 		return true, "history not enabled on this tree"
 	}
-	msg := c20Invariant(w)
+	msg := c20Invariant(w, c.Hist)
 	return msg == "", fmt.Sprintf("null root %v, history %v: %s", c.NullRoot, c20Hist(c.Hist), msg)
 }
